@@ -216,6 +216,59 @@ def sibling_text(facts, key):
     return sorted(out), unk, subj
 
 
+# ---------------------------------------------------------------- graph-level methods decided by evaluation on both interpreted back ends (round 2)
+
+_GFN_CACHE = {}
+
+
+def graph_function_results(facts):
+    """{method name: (ok, counterexample)} from graphfn.run_all, or an exception instance when the evaluator declines (cached per fact base)"""
+    from .. import graphfn
+    k = id(facts)
+    if k not in _GFN_CACHE:
+        try:
+            res, n = graphfn.run_all(facts)
+            _GFN_CACHE[k] = (res, n)
+        except minirust.Panics as ex:
+            _GFN_CACHE[k] = ({'*': (False, 'a method panics on a small well-formed diagram: %s' % ex)}, 0)
+        except (minirust.NoEval, minirust.Proceed, TypeError, KeyError, IndexError, AttributeError, ValueError) as ex:
+            _GFN_CACHE[k] = ex
+    return _GFN_CACHE[k]
+
+
+def graph_function_obligations(ck, facts, keys, schemas, rule='R-EFFECT'):
+    """for every GraphLike default method in `keys`: decided by evaluation (both back ends, every small diagram of graphfn.diagrams, every basis
+    element / plug list / pair of diagrams); the effect-schema comparison is the fallback when the evaluator declines, and then only a positive
+    match discharges (a difference in spelling is not a refutation).  Returns the set of method names decided by evaluation."""
+    r = graph_function_results(facts)
+    decided = set()
+    if not isinstance(r, Exception):
+        res, n = r
+        for key in keys:
+            name = key.rsplit('::', 1)[1]
+            ck.fn(key)
+            if '*' in res:
+                ck.ob(rule, key + '/schema', False, ck.site(key), res['*'][1])
+                decided.add(name)
+            elif name in res:
+                okv, cex = res[name]
+                ck.ob(rule, key + '/schema', okv, ck.site(key), 'evaluated on small diagrams on both back ends: %s' % cex, sample={'evaluations': n})
+                decided.add(name)
+        ck.note('graph-level methods %s: decided by evaluation on both interpreted back ends (%d evaluations)' % (sorted(decided), n))
+    else:
+        ck.note('graph-level methods: the evaluator declined (%s: %s); effect schemas used, positive matches only' % (type(r).__name__, r))
+    for key in keys:
+        name = key.rsplit('::', 1)[1]
+        if name in decided:
+            continue
+        got, unknown, subjects = reffect.effects_of(facts, key, no_vars=False, full=True)
+        ck.fn(key)
+        verdict, msg = reffect.compare_summaries(facts, got, schemas[key], subjects)
+        ck.ob3(rule, key + '/schema', True if (verdict is True and not unknown) else None, ck.site(key),
+               'the method is not evaluable and its effect summary does not match the schema as spelled (%s)' % (msg or unknown[:1]))
+    return decided
+
+
 def run(ck):
     facts = ck.facts
     from refs import effects_ref as E
@@ -238,19 +291,25 @@ def run(ck):
             ck.ob('R-BOUNDS', '%s/plug-index-%d' % (key, i), ok, ck.site(key, n),
                   '`%s` is evaluated without a dominating `i < plug.len()` test (a bound test placed after the index in the same && chain does not protect it): a list shorter than the wires panics' % hir.pp(n))
     ck.floor('R-BOUNDS', nb, 2)
+    gkeys = ['graph::GraphLike::plug_input', 'graph::GraphLike::plug_output', 'graph::GraphLike::plug_inputs', 'graph::GraphLike::plug_outputs',
+             'graph::GraphLike::adjoint', 'graph::GraphLike::to_adjoint', 'graph::GraphLike::plug', 'graph::GraphLike::append_graph', 'graph::GraphLike::x_to_z']
+    decided = graph_function_obligations(ck, facts, gkeys, E.C11_SCHEMAS)
+    # plug_vertex is exercised through plug_input / plug_output for every basis element
+    if {'plug_input', 'plug_output'} <= decided:
+        ck.fn('graph::GraphLike::plug_vertex')
+    else:
+        graph_function_obligations(ck, facts, ['graph::GraphLike::plug_vertex'], E.C11_SCHEMAS)
     for a, b in (('graph::GraphLike::plug_input', 'graph::GraphLike::plug_output'), ('graph::GraphLike::plug_inputs', 'graph::GraphLike::plug_outputs')):
+        na, nb_ = a.rsplit('::', 1)[1], b.rsplit('::', 1)[1]
+        if na in decided and nb_ in decided:
+            continue          # both variants are held against the same reference semantics: their agreement follows
         ta, ua, sa = sibling_text(facts, a)
         tb, ub, sb = sibling_text(facts, b)
         subj = dict(sa)
         subj.update(sb)
         verdict, msg = reffect.compare_summaries(facts, ta, tb, subj)
-        if (ua or ub) and verdict is not True:
-            verdict, msg = None, 'a variant contains constructs the effect executor does not understand (%s)' % (ua + ub)[:2]
-        ck.ob3('R-SIB', '%s~%s' % (a.rsplit('::', 1)[1], b.rsplit('::', 1)[1]), verdict, ck.site(a),
-               'the input and output variants differ beyond inputs<->outputs: %s' % msg, sample={'effects': ta})
-    for key in ('graph::GraphLike::plug_vertex', 'graph::GraphLike::plug_input', 'graph::GraphLike::plug_output', 'graph::GraphLike::plug_inputs', 'graph::GraphLike::plug_outputs',
-                'graph::GraphLike::adjoint', 'graph::GraphLike::to_adjoint', 'graph::GraphLike::plug', 'graph::GraphLike::append_graph', 'graph::GraphLike::x_to_z'):
-        reffect.check_schema(ck, 'R-EFFECT', key, E.C11_SCHEMAS[key], no_vars=False)
+        ck.ob3('R-SIB', '%s~%s' % (na, nb_), True if (verdict is True and not ua and not ub) else None, ck.site(a),
+               'the variants are not evaluable and their effect summaries differ beyond inputs<->outputs as spelled: %s' % msg, sample={'effects': ta})
     B = 'graph::BasisElem::'
     ph = enumeval.table(facts, 'graph::BasisElem::phase', [[B + v for v in ('Z0', 'Z1', 'X0', 'X1')]])
     want = {(B + 'Z0',): Fr(0), (B + 'Z1',): Fr(1), (B + 'X0',): Fr(0), (B + 'X1',): Fr(1)}
@@ -265,12 +324,13 @@ def run(ck):
     op = enumeval.table(facts, 'graph::EType::opposite', [[ET + 'N', ET + 'H', ET + 'Wio']])
     ck.ob('R-TABLE-basis', 'EType::opposite', op == {(ET + 'N',): ET + 'H', (ET + 'H',): ET + 'N', (ET + 'Wio',): ET + 'Wio'}, ck.site('graph::EType::opposite'), 'opposite table is %s' % op)
     # D5
-    rs = redge.raw_sites(facts, ['graph::GraphLike::subgraph_from_vertices', 'graph::GraphLike::copy', 'graph::GraphLike::append_graph'])
+    copied = graph_function_obligations(ck, facts, ['graph::GraphLike::subgraph_from_vertices', 'graph::GraphLike::copy'], {}, rule='R-EDGE') if not isinstance(graph_function_results(facts), Exception) else set()
+    rs = redge.raw_sites(facts, [k for k in ('graph::GraphLike::subgraph_from_vertices', 'graph::GraphLike::copy', 'graph::GraphLike::append_graph') if k.rsplit('::', 1)[1] not in (copied | decided)])
     from .C01 import _is_injective_copy
     for i, (key, c, just, detail) in enumerate(rs):
         ok = just is not None or _is_injective_copy(facts['fns'][key], c)
-        ck.ob('R-EDGE', '%s/copy-%d' % (key, i), ok, ck.site(key, c), 'edge copied with a raw insertion whose endpoints are not images under one vertex map')
-    ck.floor('R-EDGE', len(rs), 3)
+        ck.ob3('R-EDGE', '%s/copy-%d' % (key, i), True if ok else None, ck.site(key, c), 'the method is not evaluable and an edge is copied with a raw insertion whose endpoints were not recognised as images under one vertex map')
+    ck.floor('R-EDGE', len(rs) + len(copied | (decided & {'append_graph'})), 3)
     # positive controls
     fx = fixture()
     bo = bounds_obligations(fx['fns']['graph::plug_inputs_bad'], 'plug')
